@@ -888,3 +888,40 @@ def _is_state(v) -> bool:
     from .dataflow import _is_state_init
 
     return v is None or _is_state_init(v)
+
+
+def ifexp_to_if(fn) -> int:
+    """`return A if c else B` -> `if c: return A` / `else: return B`;  `t = A if c else B` -> `if c: t = A` / `else: t = B` (recursively for chained
+    conditional expressions).  Conditions then exist once, as tests of the control-flow graph."""
+    count = 0
+
+    def split(s):
+        v = s.value
+        mk = lambda val: (ast.Return(value=val) if isinstance(s, ast.Return) else
+                          ast.Assign(targets=[ast_copy(t) for t in s.targets], value=val) if isinstance(s, ast.Assign) else
+                          ast.AnnAssign(target=ast_copy(s.target), annotation=ast_copy(s.annotation), value=val, simple=s.simple))
+        a, b = mk(v.body), mk(v.orelse)
+        for x in (a, b):
+            ast.copy_location(x, s)
+        node = ast.If(test=v.test, body=expand(a), orelse=expand(b))
+        ast.copy_location(node, s)
+        ast.fix_missing_locations(node)
+        return node
+
+    def expand(s):
+        nonlocal count
+        if isinstance(s, (ast.Return, ast.Assign, ast.AnnAssign)) and isinstance(getattr(s, "value", None), ast.IfExp):
+            if isinstance(s, ast.Assign) and any(not isinstance(t, (ast.Name, ast.Attribute)) for t in s.targets):
+                return [s]
+            count += 1
+            return [split(s)]
+        return [s]
+
+    for body in _stmt_blocks(fn):
+        i = 0
+        while i < len(body):
+            new = expand(body[i])
+            if new[0] is not body[i]:
+                body[i:i + 1] = new
+            i += 1
+    return count
